@@ -413,7 +413,72 @@ def sc_grand(V, n=1, delta=1, via_setter=False):
     _textbook(V, d, u, X, pref, "decision==textbook", info, threshold=_LAST_THRESHOLD.get("grand"))
 
 
+MAGNITUDES = (-2000.0, -800.0, -30.0, 0.0, 30.0, 800.0, 2000.0)
+
+
+def sc_extreme(V, ensemble="isobaric"):
+    """Extreme but legal magnitudes, concretely (finite table, solver-driven choice): the two terms of the
+    exponent -- a = -(dE + P dV)/kT and b = (N+1) ln(V'/V) -- each range over +-2000, so every intermediate of an
+    implementation that does not work in log space over- or underflows (exp(800) = inf, exp(-800) = 0, inf*0 = nan).
+    The decision must still be the textbook one, u < min(1, exp(a + b)), decided here in log space, and nothing may
+    be raised.  Exact reals cannot see this: it is a statement about the float code, so it is checked on floats."""
+    import math
+
+    from ase import Atoms
+
+    from quansino.mc.criteria import CanonicalCriteria, IsobaricCriteria, IsotensionCriteria
+
+    a = MAGNITUDES[V.choice("a", len(MAGNITUDES))]
+    b = MAGNITUDES[V.choice("b", len(MAGNITUDES))] if ensemble != "canonical" else 0.0
+    u = (1e-300, 0.5, 1.0 - 1e-12)[V.choice("u", 3)]
+    n = 2
+    T = 300.0
+    kT = T * _kB()
+    L0 = 10.0
+    atoms = Atoms("H" * n, positions=[[0.3 * i + 1.0, 0.1 * i + 1.0, 0.2 * i + 1.0] for i in range(n)], cell=[L0] * 3, pbc=True)
+    E0 = 0.25
+    E1 = E0 - a * kT  # with P = 0 the enthalpy term is the energy difference alone
+    atoms.calc = EnergyCalc(E1)
+    info = f"extreme:{ensemble}:a={a:g}:b={b:g}:u={u:g}"
+    if ensemble == "canonical":
+        from quansino.mc.canonical import Canonical
+
+        mc = Canonical(atoms, temperature=T, seed=1)
+        crit = CanonicalCriteria()
+    elif ensemble == "isobaric":
+        from quansino.mc.isobaric import Isobaric
+
+        mc = Isobaric(atoms, temperature=T, pressure=0.0, seed=1)
+        crit = IsobaricCriteria()
+    else:
+        from quansino.mc.isotension import Isotension
+
+        mc = Isotension(atoms, temperature=T, pressure=0.0, external_stress=np.zeros((3, 3)), seed=1)
+        crit = IsotensionCriteria()
+    ctx = mc.context
+    ctx.last_potential_energy = E0
+    if ensemble != "canonical":
+        ctx.last_cell = atoms.get_cell()
+        atoms.set_cell([L0 * math.exp(b / (3.0 * (n + 1)))] * 3, scale_atoms=True)
+    ctx.rng = OneU(u)
+    X = a + b
+    if abs(X - math.log(u)) < 1.0 and X < 0:
+        V.reach("extreme:near-threshold-skipped")
+        return
+    try:
+        with np.errstate(all="ignore"):
+            d = crit.evaluate(ctx)
+    except Exception as ex:  # noqa: BLE001
+        V.reach("extreme:decided")
+        V.fail("no-exception", info=info + ":" + type(ex).__name__)
+        return
+    V.reach("extreme:decided")
+    want = X >= 0 or math.log(u) < X
+    V.prove(bool(d) == want, "decision==textbook", info=info + f":got={bool(d)}:want={want}")
+
+
 SCENARIOS = {
+    "extreme": sc_extreme,
     "canonical": sc_canonical,
     "hamiltonian": sc_hamiltonian,
     "isobaric": sc_isobaric,
@@ -442,6 +507,8 @@ def _plan(tier):
             plan.append(("grand", dict(n=n, delta=delta, via_setter=False), ("grand:decided",)))
     plan.append(("grand", dict(n=1, delta=1, via_setter=True), ("grand:decided",)))
     plan.append(("grand", dict(n=2, delta=-1, via_setter=True), ("grand:decided",)))
+    for ens in ("canonical", "isobaric", "isotension"):
+        plan.append(("extreme", dict(ensemble=ens), ("extreme:decided",)))
     plan.append(("canonical", dict(n=1, via_setter=False), (), "decision==textbook"))
     plan.append(("grand", dict(n=1, delta=-1, via_setter=False), (), "decision==textbook"))
     return plan
